@@ -1,9 +1,10 @@
 (** C15: a failed filter refresh changes nothing; a successful one stores a
     stable form.  Only statements here; proofs live in Proofs/RuleListParser.v
-    and Proofs/Refresh.v.  The parser theorems hold for every checksum
+    Proofs/Refresh.v and Proofs/RefreshEngine.v.  The parser theorems hold for every checksum
     function [crc] (hash/crc32 in the code). *)
 From Coq Require Import NArith List.
-From AGH Require Import Base.Run Model.RuleListParser Model.Refresh Proofs.RuleListParser Proofs.Refresh.
+From AGH Require Import Base.Run Model.RuleListParser Model.Refresh Proofs.RuleListParser Proofs.Refresh
+  Proofs.RefreshEngine.
 Import ListNotations.
 Local Open Scope N_scope.
 
@@ -347,3 +348,86 @@ Example C15_refresh_premises_satisfiable :
   refresh crc32_update true true true RExamples.all
     (fun i => if i =? 1 then OBody RExamples.html false else OOpenErr) RExamples.st1 = RExamples.st1.
 Proof. exact refresh_example. Qed.
+
+(** ** The engine over histories *)
+
+(** Over every history of refreshes, set_url calls (whatever their result)
+    and engine rebuilds in which no pass ends with a network error, from a
+    state whose engine is in step with the files (the initial state is): the
+    rules in force are, per enabled list, the contents of its stored file
+    (which [C15_metadata_describe_file] shows to be a normal form with the
+    recorded count and checksum). *)
+Theorem C15_engine_consistent : forall crc hs st,
+  engine_consistent st -> passes_ok crc hs st -> engine_consistent (run_hist crc hs st).
+Proof. exact history_engine_consistent. Qed.
+Print Assumptions C15_engine_consistent.
+
+(** In ANY history, network errors and stale engines included: right after a
+    pass without a network error that updated some list, after a set_url call
+    that reports a restart and no error, and after a rebuild, the rules in
+    force are those of the stored files of the enabled lists. *)
+Theorem C15_rebuilding_step_consistent : forall crc hs h st,
+  rebuilding crc (run_hist crc hs st) h -> engine_consistent (run_hist crc (hs ++ [h]) st).
+Proof. exact rebuilding_step_consistent. Qed.
+Print Assumptions C15_rebuilding_step_consistent.
+
+(** "Network error, files ahead of the engine", exactly: a pass in which
+    every attempted list of one array fails reports a network error and does
+    not rebuild the engine, so for EVERY list the rules in force are those in
+    force before the pass, also for the lists of the other array whose files
+    and metadata the pass has replaced. *)
+Theorem C15_files_ahead_of_engine : forall crc b a force due oc st,
+  pass_net_error crc b a force due oc st = true ->
+  r_engine (refresh crc b a force due oc st) = r_engine st.
+Proof. exact net_error_pass_keeps_engine. Qed.
+Print Assumptions C15_files_ahead_of_engine.
+
+(** The engine is NOT put in step by the next pass as such: a pass without a
+    network error in which no list is updated (every source fails or delivers
+    what is stored) changes nothing at all, the engine included. *)
+Theorem C15_quiet_pass_is_noop : forall crc b a force due oc st,
+  pass_net_error crc b a force due oc st = false -> pass_updated crc b a force due oc st = 0 ->
+  refresh crc b a force due oc st = st.
+Proof. exact quiet_pass_is_noop. Qed.
+Print Assumptions C15_quiet_pass_is_noop.
+
+(** A set_url call never takes the engine out of step. *)
+Theorem C15_set_keeps_engine_consistent : forall crc allow u name nurl en o st,
+  engine_consistent st -> engine_consistent (snd (set_props crc allow u name nurl en o st)).
+Proof. exact set_props_keeps_consistent. Qed.
+Print Assumptions C15_set_keeps_engine_consistent.
+
+(** Hence "after every pass that reports no error the rules in force are
+    those of the stored files" is false for the code as it is: after block
+    list fails / allow list updated, the following error-free pass in which
+    nothing changes leaves the old allow rule in force. *)
+Theorem C15_error_free_pass_consistent_refuted : ~ error_free_pass_consistent_statement crc32_update.
+Proof. exact error_free_pass_consistent_refuted. Qed.
+Print Assumptions C15_error_free_pass_consistent_refuted.
+
+(** Non-vacuity and the witness: [st1] is in step; the pass with the failing
+    block source reports a network error, stores the allow list's new file and
+    checksum, and keeps the engine; the next, error-free, pass changes nothing;
+    a pass that updates a list, or a rebuild, puts the stored rules in force. *)
+Example C15_files_ahead_satisfiable :
+  engine_consistent RExamples.st1 /\
+  pass_net_error crc32_update true true true RExamples.all Ahead.oc_ahead RExamples.st1 = true /\
+  fget 11 (r_files Ahead.st_ahead) = Some RExamples.good2 /\
+  map f_sum (r_allow Ahead.st_ahead) <> map f_sum (r_allow RExamples.st1) /\
+  r_engine Ahead.st_ahead = r_engine RExamples.st1 /\
+  lookup 11 (e_allow (r_engine Ahead.st_ahead)) = Some RExamples.good /\
+  verdict (r_engine Ahead.st_ahead) [112;49] = 2 /\
+  verdict (rebuild (r_block Ahead.st_ahead) (r_allow Ahead.st_ahead) (r_files Ahead.st_ahead)) [112;49] = 1 /\
+  pass_net_error crc32_update true true true RExamples.all Ahead.oc_same Ahead.st_ahead = false /\
+  pass_updated crc32_update true true true RExamples.all Ahead.oc_same Ahead.st_ahead = 0 /\
+  Ahead.st_next = Ahead.st_ahead /\
+  verdict (r_engine Ahead.st_next) [112;49] = 2 /\
+  pass_updated crc32_update true true true RExamples.all Ahead.oc_new Ahead.st_next = 1 /\
+  verdict (r_engine Ahead.st_later) [112;49] = 0 /\ verdict (r_engine Ahead.st_later) [112;50] = 2 /\
+  verdict (r_engine (rebuild_now Ahead.st_ahead)) [112;49] = 1.
+Proof. exact files_ahead_example. Qed.
+
+Example C15_engine_history_satisfiable :
+  passes_ok crc32_update [HRefresh true true true RExamples.all Ahead.oc_new; HRebuild] RExamples.st1 /\
+  rebuilding crc32_update RExamples.st1 (HRefresh true true true RExamples.all Ahead.oc_new).
+Proof. exact engine_history_example. Qed.
